@@ -11,6 +11,35 @@ PROOF_NOTE = ("Trusted base: z3, the vf.symx lifting (self-validated on every in
               "Real-number semantics; IEEE rounding is outside the claim.")
 
 CHECKS = [
+    dict(property_id="C01", category="proof", engine=E1,
+         text="For each registry instance (~75 operator instances: named gates + variable-wire gates) and for ALL real parameter "
+              "values: matrix == product of decomposition() matrices; D.M.D^dagger == diag(eigvals) with D from "
+              "diagonalizing_gates(); U(0)=I and dU/dtheta = i*coeff*G*U for the declared generator (hence U=exp(i theta G)); "
+              "qp.matrix(op, wire_order) == independent re-indexing for permuted/extended/string wire orders; pauli_rep matrix "
+              "== matrix; availability flags honoured. Each identity is decided by z3 (unsat of the negation).",
+         note=PROOF_NOTE + " Outside: sparse matrices, fractional powers, numeric-eigvals fallbacks, templates.",
+         technique="symbolic execution of matrix/decomposition/eigvals/generator code on polynomial terms; z3 QF_NRA identity proofs"),
+    dict(property_id="C05", category="proof", engine=E1,
+         text="Partial (cache-key canonicalisation): every (operator class, parameter, period T) that the real hash treats as "
+              "equal (found at run time by probing the real __hash__) is proved to satisfy M_w(theta+T) == M_w(theta) for all "
+              "theta, bare and under ctrl/adjoint/pow/prod wrappers, so equal cache keys imply equal matrices and therefore equal "
+              "results. A sat model is replayed through qp.execute(cache=True) vs cache=False on default.qubit.",
+         note=PROOF_NOTE + " Outside: structural hash separation, LRU eviction, the round(.,10) slab, fractional powers.",
+         technique="symbolic execution of operator matrices under wrappers at theta and theta+T; z3 QF_NRA periodicity proofs"),
+    dict(property_id="C07", category="proof", engine=E1,
+         text="Every member (read at run time) of the seven attribute sets in ops/qubit/attributes.py that has a closed-form "
+              "matrix is instantiated and its claim proved for ALL parameter values: self-inverse M.M=I, wire-permutation "
+              "symmetry for generating transpositions, zero off-diagonals, U(a)U(b)=U(a+b), unitary generator, broadcast == "
+              "stack of per-element matrices.",
+         note=PROOF_NOTE + " Members without closed-form symbolic matrix (embeddings, StatePrep, QubitUnitary...) are listed unsupported. Rot in composable_rotations is checked for closure only (its docstring says angles do not add).",
+         technique="symbolic execution of compute_matrix/generator on polynomial terms; z3 QF_NRA identity proofs"),
+    dict(property_id="C10", category="proof", engine=E1,
+         text="Rules are read from the real registry (qp.list_decomps) for each registry instance and its Adjoint/Pow/Controlled "
+              "wrappers, executed with the library's own calling convention under a real AnnotatedQueue on symbolic parameters; "
+              "the product of emitted matrices (global phase included; work wires resolved by resolve_dynamic_wires and required "
+              "to return to |0>) is proved equal to the operator's matrix for ALL parameter values.",
+         note=PROOF_NOTE + " Unsupported (listed in evidence, not claimed): rules computing angles with arctan2/arccos/linalg, rules with mid-circuit measurements, >8 wires. TemporaryAND compared on its documented domain.",
+         technique="symbolic execution of registered decomposition rules on polynomial terms; z3 QF_NRA identity proofs"),
     dict(property_id="C02", category="proof", engine=E1,
          text="For each of ~70 named-gate instances the real op matrix is proved equal, entry by entry and for ALL real "
               "parameter values (no bound on angles; circle-atom encoding decided by z3 QF_NRA), to a reference table "
